@@ -285,6 +285,31 @@ func (w *wk) runCase(s Site, k Case) {
 			return
 		}
 		w.count("written_body_verified", 1)
+	case clWrittenBadTpl:
+		if resp.Err != nil {
+			w.violation("C12/no-response/"+b.Class, "no well-formed response (framing does not match the bytes sent) for a handler that wrote a response whose body is not a valid template: "+resp.Err.Error(), s, wit("one well-formed response: the handler's, or an error response"))
+			return
+		}
+		templated := s.has(dTemplates) && (k.Path == 1 || k.Path == 3)
+		if templated && resp.Status >= 500 {
+			// templates could not execute the body and answered with an error: allowed
+			w.count("invalid_template_answered_with_error", 1)
+			break
+		}
+		if resp.Status != b.Status {
+			w.violation("C12/written/status-changed/"+b.Class, fmt.Sprintf("handler wrote status %d, client received %d", b.Status, resp.Status), s, wit(fmt.Sprintf("status %d", b.Status)))
+			return
+		}
+		if method == "HEAD" {
+			break
+		}
+		if d, ce, err := dec(); err != nil {
+			w.violation("C12/written/undecodable-body/"+b.Class, fmt.Sprintf("body cannot be decoded according to Content-Encoding %q: %v", ce, err), s, wit("decodable body"))
+		} else if !templated && !bytes.Equal(d, b.Spec.Body()) {
+			w.violation("C12/written/body-changed/"+b.Class, fmt.Sprintf("handler wrote %d body bytes, client decoded %d different bytes", len(b.Spec.Body()), len(d)), s, wit("the handler's body"))
+		} else {
+			w.count("invalid_template_body_passed", 1)
+		}
 	case clPanicB:
 		if resp.Err != nil {
 			w.violation("C12/panic-before/no-response", "handler panicked before writing; client received no well-formed response: "+resp.Err.Error(), s, wit("status 500"))
